@@ -79,6 +79,20 @@ CLAIMS = {
         "note": "The cases are enumerated by forking (bounded shape: one keeping site per case, chains <= 3). Trusted: E2 std models. Outside: arbitrary reference graphs beyond these shapes, cycles of SUB_GROUP/SUB_FUNCTION.",
         "technique": "bounded symbolic execution of MIR (fork per case), native replay of counterexamples and of every explored path",
     },
+    "C09": {
+        "engine": "E2-mirsym",
+        "text": "merge_modules is executed by the symbolic executor on modules produced by the real parser from a template that populates 30+ reference sites. With an A that conflicts on every name, every element of B must reappear as NAME.MERGE and equal B's element with all references rewritten - a whole-element comparison, so a forgotten rename site anywhere in the populated elements is a counterexample; plus check() stays clean.",
+        "design_ref": "DESIGN.md section 4 C08/C09",
+        "note": "Scenarios are enumerated by forking (bounded shape). Trusted: E2 std models. Outside: reference sites not in the template (list in harness/lib.rs MERGE_T / MERGE_T2), partial conflicts with cascading renames.",
+        "technique": "bounded symbolic execution of MIR (fork per scenario), native replay of counterexamples and of every explored path",
+    },
+    "C08": {
+        "engine": "E2-mirsym",
+        "text": "Conservation and uniqueness under merge on the same template scenarios (A unchanged, B represented, identical copy / empty module are no-ops, merge into empty yields B), fresh-name generation with pre-existing X.MERGE / X.MERGE2 names chosen symbolically, and cross-kind name clashes inside the shared namespaces.",
+        "design_ref": "DESIGN.md section 4 C08/C09",
+        "note": "Trusted: E2 std models incl. core::fmt for the .MERGEn names. Outside: sequences of several merges, namespaces not in the templates.",
+        "technique": "bounded symbolic execution of MIR (z3 for the symbolic presence bits), native replay",
+    },
 }
 
 _PENDING = "check not built yet in this revision of /verif (see DESIGN.md section 7 for the order of work)"
